@@ -128,6 +128,7 @@ func main() {
 		}
 		// every single-factor variation of a base cell, then random cells (quick) or the whole product (thorough)
 		if o.Thorough {
+			base := len(cells) // the corpus cells always run
 			for a := 0; a < 3; a++ {
 				for _, rj := range []bool{false, true} {
 					for cl := range classes {
@@ -145,6 +146,16 @@ func main() {
 						}
 					}
 				}
+			}
+			// one world serves the whole run and every cell adds users whose stores stay open (the manager never closes a
+			// store): past a couple of thousand cells a run slows down quadratically. A random 1 800 of the product per run;
+			// other seeds take other cells.
+			if prod := cells[base:]; len(prod) > 1800 {
+				for i := len(prod) - 1; i > 0; i-- {
+					j := rng.Intn(i + 1)
+					prod[i], prod[j] = prod[j], prod[i]
+				}
+				cells = cells[:base+1800]
 			}
 		} else {
 			for a := 0; a < 3; a++ {
